@@ -939,6 +939,14 @@ class CLEngine(Engine):
             return
         if got != c.keys:
             kind = "order" if sorted(got) == sorted(c.keys) else "set"
+            if kind == "set" and c.kind in ("produce", "fetch"):
+                # the broker's delivered replies cover every payload, yet the decoded result does not: the reply was read with a decoder
+                # that does not match the version of the request (C04, "the matching decoder is used for the reply")
+                ans0 = self._answers(c, reqs)
+                if all(k in ans0 and cl.delivered(ans0[k][0]) for k in c.keys):
+                    vers = sorted(set(r["req"]["api_version"] for r in reqs))
+                    self.note("C04.matching-decoder", "C04.reply-misdecoded/%s" % c.kind, "call #%d (%s v%r, broker advertises up to %r/%r): the replies delivered cover %r but the decoded result lists %r" % (
+                        c.no, c.kind, vers, self.config.get("pmax"), self.config.get("fmax"), c.keys, got))
             self.note("C07.payload-order", "C07.payload-order/%s/%s" % (kind, c.kind), "call #%d payloads %r, responses for %r" % (c.no, c.keys, got))
             return
         for resp in value:
